@@ -40,6 +40,11 @@ CLAIMED.update({
         "note": "Scope: nonce/AAD derivation, downgrade table, AAD field coverage, chunk indexing and trimming arithmetic. AES-GCM forgery detection is a cryptographic assumption.",
         "technique": TECH_KV,
     },
+    "C18": {
+        "text": "THIN SLICE. The version-selection reductions of historical reads — one fold step each of Store::element_at (keep the row with the greatest (seq, version)), Store::seq_at_time (last transaction committed at or before the instant) and Store::schema_version_at (last environment activated at or before the coordinate) — copied verbatim each run from inside their async loops into a dependency-free crate; each step is loop-free, so its contract is a complete proof over all u64 (timestamps: ordered pool, bounded). 'Latest version at or before the coordinate' for ANY number of rows follows by the standard induction over the loop, which is not machine-checked. Everything else C18 states (what is recorded, the historical matcher, schema resolution, purge) is not decidable by contracts here.",
+        "note": "Scope: three fold steps of history.rs only; Store::elements_at's step (BTreeMap<String,_>) did not finish and is not under contract.",
+        "technique": TECH_K,
+    },
     "C14": {
         "text": "Kani contract harnesses on the real auth::authorize with ApiKeyHash::verify replaced by an uninterpreted relation (the table holds for EVERY relation): Ok(Admin) iff no admin key configured or the presented key verifies against it; Ok(Database) only at Database scope with a bound key that verifies — never at Root; every rejection is the one fixed 401/unauthorized answer and is identical whether the database is unbound, bound to another key or nonexistent (relational, two calls). RootMethod::parse / DbMethod::parse: every documented method name resolves to its selector in its scope only; Read is claimed only for pure queries (frozen table written from the documentation); every other ASCII name up to 28 bytes resolves to nothing (bounded). Partial: handlers and middleware are async and not under contract.",
         "note": "Scope: authorization decision and method/effect table.",
@@ -57,7 +62,6 @@ NOT_APPLICABLE = {
     "C12": "search soundness/recall over a randomized concurrent graph; distance kernels define the metric and CBMC's libm model is too weak to state more (DESIGN §3 C12)",
     "C15": "nom combinator parsers unreachable for both verifiers; the only callable function validate_parser_budget exhausted 33 GB at 6 symbolic characters (DESIGN §3 C15)",
     "C17": "all-or-nothing is a frame condition over ten async collections; no synchronous kernel states any clause (DESIGN §3 C17)",
-    "C18": "historical reads interleave version selection with awaits; the comparison is not separable into a callable function (DESIGN §3 C18)",
     # planned, not yet built in this commit (moved to CLAIMED when their check passes)
     "C13": "planned (DESIGN §3 C13) — contracts not built yet in this commit",
     "C16": "planned (DESIGN §3 C16) — contracts not built yet in this commit",
